@@ -19,12 +19,15 @@ def route(case):
     if case.startswith("W "):
         return "radius"
     return "aaa_race" if case.startswith("Sr ") else "aaa"
-# Model variants: "repaired" = /repo HEAD plus ordered per-session delivery of the provider calls (the one finding still
-# open, no patch); "head" = /repo HEAD.  Everything else is fixed in /repo (7e92d8e, e0693a6, d70a5ae, 9b87063, d95fed1,
-# 7faf7f9, 5478db8): a regression to any of those matches neither variant and is reported as a VIOLATION.
-VARIANTS = ["repaired", "head"]
-FLAGS = {"repaired": "", "head": "o"}
-SIG = {"o": "start-stop-interim-sent-from-unordered-goroutines"}
+# Model variants v<s><o><l><p><q><g> (fix_sent, fix_order, fix_l2stop, fix_prune, fix_presend, fix_ghost); "repaired" =
+# v111111, "head" = v101101 = /repo HEAD.  Two findings are not repaired in /repo: o (provider calls sent from unordered
+# goroutines; no patch) and q (LastSent is persisted only with the outcome of the request: a restart while an Interim is
+# unanswered forgets it; fixes/C09_persist_sent_before_request.patch).  Everything else is fixed in /repo (7e92d8e, e0693a6,
+# d70a5ae, 9b87063, d95fed1, 7faf7f9, 5478db8): a regression to any of those matches no variant and is a VIOLATION.
+VARIANTS = ["repaired", "v101111", "v111101", "head"]
+FLAGS = {"repaired": "", "v101111": "o", "v111101": "q", "head": "oq"}
+SIG = {"o": "start-stop-interim-sent-from-unordered-goroutines",
+       "q": "restart-while-interim-unanswered-forgets-last-sent"}
 # the model driver receives the implementation's line: for a session whose uint64 cumulative has wrapped (outside the
 # property's domain) the implementation's counter VALUES are taken as they are from that operation on (ocaml: mask_line)
 MODEL_NEEDS_IMPL = True
@@ -416,6 +419,40 @@ def gen_inflight(rng):
     return " ".join(head + ops)
 
 
+def gen_restart_unanswered(rng):
+    """the process restarts while an Interim is unanswered (H,I T ... B, the response is never delivered), then the
+    session is restored / re-announced and reports again - with readings missing, restarted or continuing"""
+    k = rng.choice([1, 1, 2])
+    sess = rng.sample(POOL, k)
+    tys = [rng.choice("iipg") for _ in sess]
+    head = ["S", str(k)] + ["%s:%d:%s" % (sid, b, t) for (sid, b), t in zip(sess, tys)]
+    pl = Plane(rng, False)
+    pl.l2gw = "g" in tys
+    ifx = {x: rng.choice(IFX) for x in range(k)}
+    ops = [("A,%d,%d,%d" if rng.random() < 0.8 else "R,%d,%d,%d") % (x, ifx[x], rng.choice(IFX)) for x in range(k)]
+    for _ in range(rng.randrange(0, 3)):
+        pl.evolve()
+        x = rng.randrange(k)
+        ops.append("T,%d,%d,%s" % (sess[x][1], rng.choice([0, 0, 1 << x]), snap_tok(pl.snapshot())))
+    j = rng.randrange(k)
+    pl.evolve()
+    ops += ["H,I", "T,%d,0,%s" % (sess[j][1], snap_tok(pl.snapshot())), "H,-", "B"]
+    for x in range(k):
+        if rng.random() < 0.85:
+            ops.append(("R,%d,%d,%d" if rng.random() < 0.8 else "A,%d,%d,%d") % (x, ifx[x], rng.choice(IFX)))
+    for _ in range(rng.choice([1, 2, 3])):
+        x = rng.randrange(k)
+        m = rng.random()
+        if m < 0.35:
+            sn = rng.choice(["e", "-", "e|e"])
+        else:
+            if rng.random() < 0.5:
+                pl.evolve()
+            sn = snap_tok(pl.snapshot())
+        ops.append(rng.choice(["T,%d,0,%s" % (sess[x][1], sn), "X,%d,%s" % (x, sn)]))
+    return " ".join(head + ops)
+
+
 def gen_conc(rng, racy):
     """history = sequential prefix, one forced-overlap group, (deterministic groups only) a sequential suffix.
     Deterministic group: 2-4 duplicated Released of one session, optionally Released of other sessions and one tick.
@@ -520,6 +557,11 @@ def gen_cases(rng, tier, budget):
               "S 1 s7:7:i A,0,5 H,I T,7,0,5:1500000:2:2:2 U H,- T,7,0,e X,0,e"]
     cases += ["S 1 s7:7:i A,0,5 H,I T,7,0,5:100:1:1:1 X,0,e U H,- B P,1", "S 1 s7:7:i A,0,5 H,I T,7,1,5:100:1:1:1 X,0,e U H,- B X,0,e",
               "S 1 s7:7:i A,0,5 H,I T,7,0,5:100:1:1:1 X,0,5:300:3:3:3 U", "S 1 s7:7:i A,0,5 H,I T,7,0,5:100:1:1:1 X,0,e A,0,6 U H,- T,7,0,6:5:5:5:5"]
+    # a restart while an Interim is unanswered
+    cases += ["S 1 s7:7:i A,0,5 T,7,0,5:7:1:1:1 H,I T,7,0,5:100:1:1:1 H,- B R,0,5 X,0,e",
+              "S 1 s7:7:i A,0,5 H,I T,7,0,5:100:1:1:1 H,- B R,0,5 T,7,0,5:3:1:1:1 X,0,e"]
+    for i in range(80 if tier == "quick" else 1500):
+        cases.append(gen_restart_unanswered(rng))
     # the checkpoint write of a processed response is still on its way (H,IW: held before the store) when the session is
     # released; UW lets it land after the releaser's delete
     for ok in (0, 1):
@@ -792,7 +834,7 @@ def distribution(cases, impl):
                 if bt == "0":
                     # excuse: P = dropped by an orphan prune (known finding), D = a Start was held back (known finding),
                     # otherwise W = a uint64 cumulative wrapped (the model marks anything else UNEXCUSED = VIOLATION)
-                    e = "G" if "G" in exc else "P" if "P" in exc else "D" if "D" in exc else "W"
+                    e = "G" if "G" in exc else "Q" if "Q" in exc else "P" if "P" in exc else "D" if "D" in exc else "W"
                     z = d.setdefault("verdict_bits_zero_by_bit_and_excuse", {})
                     z[nm + ":" + e] = z.get(nm + ":" + e, 0) + 1
     return d
